@@ -9,11 +9,11 @@ pub mod c20;
 pub mod clients;
 
 use super::common::*;
-use mos_simrt::shuttle;
 use mos_simrt::disk::SimDisk;
 use mos_simrt::net::{NetKnobs, NetStats};
 use mos_simrt::panics::PanicInfo;
 use mos_simrt::sched::{SchedKnobs, SchedStats, SimScheduler};
+use mos_simrt::shuttle;
 use mos_simrt::{chan, clock, disk, entropy, env, net, panics, pipe, probe};
 use serde_json::{json, Value};
 use std::cell::RefCell;
@@ -33,7 +33,11 @@ pub struct ExecKnobs {
 
 impl Default for ExecKnobs {
     fn default() -> Self {
-        ExecKnobs { sched: SchedKnobs::default(), net: NetKnobs::default(), max_steps: 400_000 }
+        ExecKnobs {
+            sched: SchedKnobs::default(),
+            net: NetKnobs::default(),
+            max_steps: 400_000,
+        }
     }
 }
 
@@ -51,7 +55,10 @@ impl ExecKnobs {
                 early_coin: v.get("early_coin")?.as_u64()? as u32,
                 stall_bound_us: v.get("stall_bound_us")?.as_u64()?,
             },
-            net: NetKnobs { max_chunk: v.get("max_chunk")?.as_u64()? as usize, buffer_cap: v.get("buffer_cap")?.as_u64()? as usize },
+            net: NetKnobs {
+                max_chunk: v.get("max_chunk")?.as_u64()? as usize,
+                buffer_cap: v.get("buffer_cap")?.as_u64()? as usize,
+            },
             max_steps: v.get("max_steps")?.as_u64()? as usize,
         })
     }
@@ -76,7 +83,13 @@ pub fn hist(who: &'static str, what: &str, data: Value) {
     HIST.with(|h| {
         let mut h = h.borrow_mut();
         let seq = h.len() as u64;
-        h.push(HistEv { seq, t_us: t, who, what: what.to_string(), data });
+        h.push(HistEv {
+            seq,
+            t_us: t,
+            who,
+            what: what.to_string(),
+            data,
+        });
     });
 }
 
@@ -149,10 +162,15 @@ pub fn run_execution<R: Send + 'static>(
             Err(_) => all_panics
                 .iter()
                 .find(|p| p.message.contains(ABORT_MARKER))
-                .or(all_panics.iter().find(|p| !p.message.contains("PoisonError") && !p.message.contains("AcquireError")))
+                .or(all_panics.iter().find(|p| {
+                    !p.message.contains("PoisonError") && !p.message.contains("AcquireError")
+                }))
                 .or(all_panics.first())
                 .cloned()
-                .or(Some(PanicInfo { message: "unknown panic".into(), location: "<unknown>".into() })),
+                .or(Some(PanicInfo {
+                    message: "unknown panic".into(),
+                    location: "<unknown>".into(),
+                })),
         };
         let (now, fired, _reg, _canc, qj, ef) = clock::stats();
         let d = disk::uninstall();
@@ -183,7 +201,10 @@ pub fn run_execution<R: Send + 'static>(
         Ok(o) => o,
         Err(p) => ExecOutcome {
             result: None,
-            panic: p.last().cloned().or(Some(PanicInfo { message: "harness thread died".into(), location: "<unknown>".into() })),
+            panic: p.last().cloned().or(Some(PanicInfo {
+                message: "harness thread died".into(),
+                location: "<unknown>".into(),
+            })),
             all_panics: p,
             sched: SchedStats::default(),
             sim_time_us: 0,
